@@ -485,6 +485,15 @@ func genSQL(rng *rand.Rand) Case {
 		c.Stat = append(c.Stat, "sql-having")
 	}
 	fields = append(fields, c03Field{alias: "zc", kind: "count", p: 0.95, nth: 1, input: []string{"col", hx("zsent")}})
+	late := 0
+	if !grouped && !having && rng.Intn(6) == 0 {
+		// a sink registered late: the first `late` windows fire while nobody listens (result channel of one slot, no sink);
+		// what the sink then sees must be exactly the later windows, each over its own rows
+		late = 2 + rng.Intn(2)
+		fields = append(fields, c03Field{alias: "zp", kind: "count", p: 0.95, nth: 1, input: []string{"col", hx("zpre")}})
+		c.Cfg = append(c.Cfg, []string{"latesink", strconv.Itoa(late)})
+		c.Stat = append(c.Stat, "sql-late-sink")
+	}
 	var sel []string
 	if grouped {
 		sel = append(sel, "g")
@@ -495,7 +504,7 @@ func genSQL(rng *rand.Rand) Case {
 	}
 	gb := "CountingWindow(" + strconv.Itoa(n) + ")"
 	gwin := false
-	plain := !having
+	plain := !having && late == 0
 	for _, f := range fields {
 		if f.input[0] != "col" && f.input[0] != "star" {
 			plain = false
@@ -558,6 +567,9 @@ func genSQL(rng *rand.Rand) Case {
 		cols = append([]string{"g"}, cols...)
 	}
 	total := n * (1 + rng.Intn(4))
+	if late > 0 {
+		total += late * n
+	}
 	if grouped {
 		total = n*2 + rng.Intn(3*n+1)
 	} else if rng.Intn(3) == 0 {
@@ -860,20 +872,49 @@ func execSQL(c Case) [][][]string {
 	if flushAt < 0 {
 		return out
 	}
-	s := streamsql.New(streamsql.WithDiscardLog())
+	late := 0
+	if l := cfgGet(c, "latesink"); len(l) > 0 {
+		late, _ = strconv.Atoi(l[0])
+	}
+	opts := []streamsql.Option{streamsql.WithDiscardLog()}
+	if late > 0 {
+		opts = append(opts, streamsql.WithBufferSizes(1000, 1, 50))
+	}
+	s := streamsql.New(opts...)
 	defer s.Stop()
 	if err := s.Execute(sql); err != nil {
 		out[flushAt] = [][]string{{"exec-error", hx(err.Error())}}
 		return out
 	}
 	ch := make(chan []map[string]interface{}, 4096)
-	s.AddSyncSink(func(r []map[string]interface{}) {
+	sink := func(r []map[string]interface{}) {
+		// a window made of pre-sink rows only (zp = n) that was still on its way when the sink was added is not an observable
+		if late > 0 && len(r) == 1 {
+			if f, ok := r[0]["zp"].(float64); ok && int(f) == n {
+				if z, ok := r[0]["zc"].(float64); ok && z == 0 {
+					return
+				}
+			}
+		}
 		cp := make([]map[string]interface{}, len(r))
 		copy(cp, r)
 		ch <- cp
-	})
-	for _, r := range rows {
+	}
+	if late == 0 {
+		s.AddSyncSink(sink)
+	}
+	for i, r := range rows {
+		if late > 0 && i < late*n {
+			r["zpre"] = 1
+		}
+		if late > 0 && i == late*n {
+			time.Sleep(30 * time.Millisecond) // the early windows fire unobserved (no result depends on the pause)
+			s.AddSyncSink(sink)
+		}
 		s.Emit(r)
+	}
+	if late > 0 && len(rows) <= late*n {
+		s.AddSyncSink(sink)
 	}
 	// barrier: sentinel rows (own window key when grouped; after padding to a multiple of N otherwise)
 	pad := 0
